@@ -57,7 +57,7 @@ namespace Propka.TopUp
 open Propka.Py
 def parseA (s : String) : Option A :=
   match s.splitOn "|" with
-  | [l, c, n, r] => n.toInt?.map fun n => ⟨unhexS l, unhexS c, n, unhexS r⟩
+  | [l, c, n, i, r] => n.toInt?.map fun n => ⟨unhexS l, unhexS c, n, unhexS i, unhexS r⟩
   | _ => none
 def parseAs (s : String) : Option (List A) := if s == "-" then some [] else (s.splitOn ";").mapM parseA
 /-- `topup run <conf;atoms>/<conf;atoms>/...` -> for each conformation the labels after top_up_conformations -/
